@@ -480,10 +480,54 @@ def enum_mp(tier):
             params = {"sigma": 0.2} if fam == "bs" else {"sigma": 0.1, "mu_j": 0.02, "sigma_j": 0.1, "intensity": 3.0}
             cases.append({"model": {"family": fam, "params": params, "exp": {"spot": 100.0, "r": 0.02, "d": 0.0}},
                           "paths": n, "workers": w, "mode": "fixed-dates", "seed": None, "maturity": 1.0})
+    hem = {"family": "hem", "params": {"sigma": 0.1, "p": 0.6, "eta1": 25.0, "eta2": 40.0, "intensity": 5.0},
+           "exp": {"spot": 100.0, "r": 0.05, "d": 0.02}}
+    for seed in (None, 20261002):
+        for w in ((None, 2) if tier == "quick" else (None, 2, 3, 5)):  # None = the default: one worker per CPU
+            cases.append({"engine": "multilevel", "model": hem, "paths": 48, "levels": 1 if tier == "quick" else 2,
+                          "workers": w, "seed": seed})
     return cases
 
 
+def _run_mlmc_workers(case):
+    """multilevel engine (fixed levels) on a real 1-d coupling in jump-time mode (every variate drawn inside the workers)"""
+    from rpylib.distribution.sampling import SamplingMethod
+    from rpylib.grid.spatial import CTMCUniformGrid
+    from rpylib.montecarlo.configuration import ConfigurationMultiLevel, ConvergenceRates
+    from rpylib.montecarlo.multilevel.engine import Engine
+    from rpylib.process.coupling.couplingmarkovchain import CouplingMarkovChain
+    from rpylib.product.payoff import Forward, PayoffDates
+    from rpylib.product.product import Product
+    from rpylib.product.underlying import Spot
+
+    model = build_model(case["model"])
+    payoff = Forward(strike=100.0)
+    payoff.payoff_dates_type = PayoffDates.STOCHASTIC  # jump-time simulation: nothing is pre-drawn
+    product = Product(payoff_underlying=Spot(), payoff=payoff, maturity=0.5)
+    grid = CTMCUniformGrid(h=0.05, model=model, truncation_probability=0.999)
+    cp = CouplingMarkovChain(model=model, method=SamplingMethod.BINARYSEARCHTREEADAPTED1D, grid=grid)
+    config = ConfigurationMultiLevel(convergence_rates=ConvergenceRates(1.0, 2.0, 1.0), initial_level=case["levels"],
+                                     maximum_level=case["levels"], initial_mc_paths=case["paths"], seed=case["seed"],
+                                     nb_of_processes=case["workers"])
+    stats = Engine(configuration=config, coupling_process=cp).price_with_constant_mc_paths_and_level(product)
+    return [np.array(stats.simulation_payoff_with_fine_process(l), dtype=float).ravel() for l in range(case["levels"] + 1)]
+
+
 def body_mp(case):
+    if case.get("engine") == "multilevel":
+        fine = _run_mlmc_workers(case)
+        out = []
+        for l, arr in enumerate(fine):
+            if len(arr) != case["paths"] or not np.all(np.isfinite(arr)):
+                out.append(Violation("C08/multiprocess/multilevel/index-not-written-exactly-once", f"level {l}: {arr}; case={case}"))
+            elif len(np.unique(arr)) != len(arr):
+                out.append(Violation("C08/multiprocess/multilevel/workers-produce-the-same-samples",
+                                     f"level {l}: {len(np.unique(arr))} distinct fine samples out of {len(arr)} "
+                                     f"(seed={case['seed']}, nb_of_processes={case['workers']}); case={case}"))
+        allv = np.concatenate(fine)
+        if not out and len(np.unique(allv)) != len(allv):
+            out.append(Violation("C08/multiprocess/multilevel/levels-share-their-variates", f"case={case}"))
+        return out
     out = []
     arr, spy, _ = _run_std(case, 3, nb_of_processes=case["workers"])
     detail = f"case={case}"
@@ -498,7 +542,8 @@ def body_mp(case):
 
 
 def classify_mp(case):
-    return [f"workers={case['workers']}", case["model"]["family"]], True
+    return [f"workers={case['workers']}", case["model"]["family"], case.get("engine", "standard"),
+            "seeded" if case.get("seed") is not None else "unseeded"], True
 
 
 SUBCHECKS = [
@@ -507,16 +552,16 @@ SUBCHECKS = [
                   "seed or none x two different amounts of prior RNG consumption x harness clock constant or "
                   "advancing: seeded runs bit-identical, samples pairwise distinct, no seed value applied again "
                   "after samples were produced, pre-drawn rows all consumed",
-             strategy=strat_std, budget={"quick": 96, "thorough": 1500}, shards={"quick": 16, "thorough": 16}),
+             strategy=strat_std, budget={"quick": 288, "thorough": 1500}, shards={"quick": 16, "thorough": 16}),
     SubCheck("multilevel-engine-scripted", body_mlmc, classify_mlmc,
              rule="multilevel engine on a scripted coupling whose samples consume numpy.random: seeded runs "
                   "identical ledgers, no two samples (across paths, passes, levels) drawn from the same variates, no "
                   "re-seeding to a used state (clock owned); non-trivial = seeded",
-             strategy=strat_mlmc, budget={"quick": 128, "thorough": 2000}, shards={"quick": 16, "thorough": 16}),
+             strategy=strat_mlmc, budget={"quick": 384, "thorough": 2000}, shards={"quick": 16, "thorough": 16}),
     SubCheck("multilevel-engine-real-coupling", body_real, classify_real,
              rule="multilevel engine (fixed levels 1..2, 4..10 paths) on a real CouplingMarkovChain (HEM): seeded "
                   "repeat, distinct samples across levels, coarse(l) != fine(l-1)",
-             strategy=strat_real, budget={"quick": 160, "thorough": 1600}, shards={"quick": 16, "thorough": 16}),
+             strategy=strat_real, budget={"quick": 480, "thorough": 1600}, shards={"quick": 16, "thorough": 16}),
     SubCheck("worker-processes", body_mp, classify_mp,
              rule="standard engine with 2..4 worker processes x path counts (enumerated): every index written once, "
                   "stored samples pairwise distinct",
@@ -527,6 +572,6 @@ SUBCHECKS = [
                   "sample sizes, samples and coupling decisions; every variate compared with the right-jump probability "
                   "(recorded at the comparison by a probe standing for the probability) occurs once over all levels and "
                   "passes; non-trivial = at least 3 levels and 100 coupling decisions",
-             strategy=strat_adaptive, budget={"quick": 48, "thorough": 640}, shards={"quick": 16, "thorough": 16},
+             strategy=strat_adaptive, budget={"quick": 144, "thorough": 640}, shards={"quick": 16, "thorough": 16},
              essential_labels=("level-added",)),
 ]
